@@ -18,9 +18,11 @@ import (
 	"context"
 	"encoding/binary"
 	"encoding/hex"
+	"encoding/json"
 	"fmt"
 	"math/big"
 	"os"
+	"path/filepath"
 	"runtime"
 	"sort"
 	"strconv"
@@ -565,8 +567,22 @@ func blockKind(kind int) [][]mlog {
 
 func kindOf(n, rot int) int { return (n + rot + 3*(n/8)) % nKinds }
 
+// layoutKind: layout 0 is dense (every aligned group of 8 blocks holds all 8 kinds, shifted from
+// group to group); layouts 1 and 2 blank out the even / the odd groups of 8 (one unrelated log
+// only), so that whole bytes of the matcher's bit vectors are zero next to bytes that are not.
+func layoutKind(n, rot, layout int) int {
+	if layout != 0 && (n/8)%2 == layout-1 {
+		if n%8 == 3 {
+			return 6
+		}
+		return 0
+	}
+	return kindOf(n, rot)
+}
+
 type chain struct {
 	L, rot   int
+	layout   int
 	blocks   []*types.Block
 	receipts []types.Receipts // with derived log fields, what is written to the database
 	side     map[int]*types.Block
@@ -611,8 +627,10 @@ func assemble(n int, parent common.Hash, extra string, spec [][]mlog, nonceBase 
 	return b, rcs
 }
 
-func buildChain(L, rot int) *chain {
-	return buildChainWith(L, rot, func(n int) int { return kindOf(n, rot) })
+func buildChain(L, rot, layout int) *chain {
+	c := buildChainWith(L, rot, func(n int) int { return layoutKind(n, rot, layout) })
+	c.layout = layout
+	return c
 }
 
 const prodSize = 4096 // params.BloomBitsBlocks, the section size the node uses
@@ -1142,6 +1160,25 @@ func posClass(v, indexed, head int, isEnd bool, begin int) string {
 	}
 }
 
+// involvement says which answering path(s) the effective range [begin, min(end, head)] needs.
+func involvement(begin, end, indexed, head int) string {
+	if begin == -1 {
+		begin = head
+	}
+	if end == -1 || end > head {
+		end = head
+	}
+	switch {
+	case begin > end:
+		return "empty-range"
+	case end < indexed:
+		return "index-only"
+	case begin >= indexed:
+		return "scan-only"
+	}
+	return "index-then-scan"
+}
+
 func progClass(k, size, L int) string {
 	switch {
 	case k == 0:
@@ -1185,11 +1222,25 @@ func evalQuery(st *state, c *criteria, matches [][]int, begin, end int) verdict 
 
 func (st *state) detail(c *criteria, begin, end int, v verdict) map[string]interface{} {
 	return map[string]interface{}{
-		"part": "query", "L": st.ch.L, "rot": st.ch.rot, "size": st.size, "sections_indexed": st.k,
+		"part": "query", "L": st.ch.L, "rot": st.ch.rot, "layout": st.ch.layout, "size": st.size, "sections_indexed": st.k,
 		"begin": begin, "end": end, "addr_sel": c.ai, "topic_sel": c.tsel, "criteria": c.String(),
 		"diff": v.kind, "got": v.got, "want": v.want, "error": v.errText, "panic": v.panik,
-		"note": "chain: buildChain(L, rot); block n has kind (n+rot+3*(n/8))%8, see blockKind in harness/c16",
+		"note": "chain: buildChain(L, rot, layout); block n has kind layoutKind(n, rot, layout), see blockKind in harness/c16",
 	}
+}
+
+// traceFile, in a worker started with VERIF_C16_TRACE, receives one JSON line per query before the
+// query runs: after a crash of the process the last line is the query that was running.
+var traceFile *os.File
+
+func trace(st *state, c *criteria, begin, end int, part string) {
+	if traceFile == nil {
+		return
+	}
+	d := map[string]interface{}{"part": part, "L": st.ch.L, "rot": st.ch.rot, "layout": st.ch.layout, "size": st.size, "sections_indexed": st.k,
+		"begin": begin, "end": end, "addr_sel": c.ai, "topic_sel": c.tsel, "criteria": c.String()}
+	b, _ := json.Marshal(d)
+	traceFile.Write(append(b, '\n'))
 }
 
 type inflight struct {
@@ -1227,6 +1278,7 @@ func watchdog(stop chan struct{}) {
 
 type chainCfg struct {
 	L, rot int
+	layout int
 	sizes  []int
 	gmp    int // GOMAXPROCS of the worker process while it runs this configuration
 	maxPos int // topic positions in the criteria
@@ -1234,13 +1286,13 @@ type chainCfg struct {
 
 func tierCfgs(tier string) []chainCfg {
 	if tier != "thorough" {
-		return []chainCfg{{16, 0, []int{8, 16}, 2, 3}, {19, 2, []int{8}, 2, 3}, {21, 5, []int{16}, 2, 3}}
+		return []chainCfg{{16, 0, 0, []int{8, 16}, 2, 3}, {21, 5, 1, []int{16}, 2, 3}, {19, 2, 0, []int{8}, 2, 2}}
 	}
 	return []chainCfg{
-		{16, 0, []int{8, 16}, 2, 3}, {27, 2, []int{8, 16}, 2, 3}, {40, 6, []int{16}, 2, 3}, {24, 3, []int{8}, 2, 3},
-		{32, 5, []int{8}, 2, 3}, {37, 1, []int{16}, 2, 3},
+		{16, 0, 0, []int{8, 16}, 2, 3}, {27, 2, 0, []int{8, 16}, 2, 3}, {21, 5, 1, []int{16}, 2, 3}, {40, 6, 0, []int{16}, 2, 3},
+		{24, 3, 0, []int{8}, 2, 3}, {32, 7, 2, []int{16}, 2, 3}, {32, 5, 0, []int{8}, 2, 3}, {37, 1, 1, []int{16}, 2, 3},
 		// auxiliary guard: the first configuration again with other degrees of real parallelism
-		{16, 0, []int{8, 16}, 1, 2}, {16, 0, []int{8, 16}, 4, 2},
+		{16, 0, 0, []int{8, 16}, 1, 2}, {16, 0, 0, []int{8, 16}, 4, 2},
 	}
 }
 
@@ -1265,6 +1317,14 @@ func (c *collector) violate(v ev.Violation, weight int) {
 	if _, ok := c.viol[sig]; !ok || weight < c.weight[sig] {
 		c.viol[sig], c.weight[sig] = v, weight
 	}
+}
+
+func (c *collector) wouldKeep(v ev.Violation, weight int) bool {
+	c.mu.Lock()
+	defer c.mu.Unlock()
+	sig := v.Signature()
+	_, ok := c.viol[sig]
+	return !ok || weight < c.weight[sig]
 }
 
 func (c *collector) done() *ev.WorkerResult {
@@ -1301,7 +1361,7 @@ func part2(cfgs []chainCfg, deadline time.Time, shard, nshards int, col *collect
 	for cfgi, cfg := range cfgs {
 		runtime.GOMAXPROCS(cfg.gmp)
 		crits := allCriteria(cfg.maxPos)
-		ch := buildChain(cfg.L, cfg.rot)
+		ch := buildChain(cfg.L, cfg.rot, cfg.layout)
 		// brute-force matches and block patterns per criteria
 		matches := make([][][]int, len(crits))
 		pats := make([][]int, len(crits))
@@ -1335,7 +1395,7 @@ func part2(cfgs []chainCfg, deadline time.Time, shard, nshards int, col *collect
 							part = "trailing-partial"
 						}
 						col.classes[fmt.Sprintf("blocks/size=%d/section=%d(%s)/pattern=%s", size, s, part, patName[p])] = struct{}{}
-					} else if full {
+					} else if full && cfg.layout == 0 {
 						ev.Broken("chain L=%d rot=%d: section %d of size %d has no %s block for any criteria", ch.L, ch.rot, s, size, patName[p])
 					}
 				}
@@ -1345,7 +1405,7 @@ func part2(cfgs []chainCfg, deadline time.Time, shard, nshards int, col *collect
 				db, problems := ch.writeChain(size, k)
 				for _, p := range problems {
 					col.violate(ev.Violation{Scenario: "bloombits-index", Oracle: "generator-no-false-negative", CaseID: fmt.Sprintf("size=%d", size),
-						Detail: map[string]interface{}{"part": "index", "L": ch.L, "rot": ch.rot, "size": size, "sections_indexed": k, "problem": p}}, ch.L*100+k)
+						Detail: map[string]interface{}{"part": "index", "L": ch.L, "rot": ch.rot, "layout": ch.layout, "size": size, "sections_indexed": k, "problem": p}}, ch.L*100+k)
 				}
 				states = append(states, &state{ch: ch, size: size, k: k, b: newBackend(db, uint64(size), uint64(k))})
 			}
@@ -1385,9 +1445,11 @@ func part2(cfgs []chainCfg, deadline time.Time, shard, nshards int, col *collect
 				indexed := st.k * st.size
 				head := ch.L - 1
 				n := 0
+			ranges:
 				for begin := -1; begin <= ch.L+1; begin++ {
 					for end := -1; end <= ch.L+1; end++ {
 						flights.Store(j, fmt.Sprintf("L=%d size=%d k=%d %s begin=%d end=%d", ch.L, size, st.k, c.String(), begin, end))
+						trace(st, c, begin, end, "query")
 						v := evalQuery(st, c, matches[ci], begin, end)
 						progress.Add(1)
 						n++
@@ -1400,20 +1462,29 @@ func part2(cfgs []chainCfg, deadline time.Time, shard, nshards int, col *collect
 						if !v.bad {
 							continue
 						}
-						for r := 0; r < 3; r++ {
-							v2 := evalQuery(st, c, matches[ci], begin, end)
-							if v2.bad != v.bad || v2.kind != v.kind {
-								ev.Broken("query verdict flips on re-evaluation (%s vs %s): %v", v.kind, v2.kind, st.detail(c, begin, end, v))
-							}
-						}
 						span := end - begin
 						if span < 0 || begin == -1 || end == -1 {
 							span = ch.L
 						}
 						weight := ((ch.L*8+st.k)*64+len(c.addrs)+2*len(c.tops))*4096 + span*64 + (begin + 1)
-						col.violate(ev.Violation{Scenario: "log-query", Oracle: v.oracle,
-							CaseID: fmt.Sprintf("size=%d/%s/%s/%s", size, progClass(st.k, size, ch.L), rc, v.kind),
-							Detail: st.detail(c, begin, end, v)}, weight)
+						viol := ev.Violation{Scenario: "log-query", Oracle: v.oracle,
+							CaseID: fmt.Sprintf("size=%d/%s/%s", size, involvement(begin, end, indexed, head), v.kind),
+							Detail: st.detail(c, begin, end, v)}
+						if col.wouldKeep(viol, weight) {
+							// determinism: only a case that is going to be reported is re-evaluated (a failing
+							// retrieval makes the session close wait for its one-second kill timer)
+							for r := 0; r < 3; r++ {
+								v2 := evalQuery(st, c, matches[ci], begin, end)
+								if v2.bad != v.bad || v2.kind != v.kind {
+									ev.Broken("query verdict flips on re-evaluation (%s vs %s): %v", v.kind, v2.kind, st.detail(c, begin, end, v))
+								}
+							}
+							col.violate(viol, weight)
+						}
+						if time.Now().After(deadline) {
+							capped.Store(true)
+							break ranges
+						}
 					}
 				}
 				flights.Delete(j)
@@ -1544,6 +1615,7 @@ func partProd(deadline time.Time, shard, nshards int, col *collector) {
 		for _, begin := range pts {
 			for _, end := range pts {
 				flights.Store(j, fmt.Sprintf("prod k=%d %s begin=%d end=%d", st.k, c.String(), begin, end))
+				trace(st, c, begin, end, "prod-query")
 				v := evalQuery(st, c, m, begin, end)
 				progress.Add(1)
 				n++
@@ -1554,6 +1626,14 @@ func partProd(deadline time.Time, shard, nshards int, col *collector) {
 				rc := fmt.Sprintf("begin=%s/end=%s", posClass(begin, indexed, head, false, begin), posClass(end, indexed, head, true, begin))
 				local[fmt.Sprintf("query/size=%d/sections=%d/%s/%s", prodSize, st.k, rc, res)] = struct{}{}
 				if !v.bad {
+					continue
+				}
+				pv := ev.Violation{Scenario: "log-query", Oracle: v.oracle, CaseID: fmt.Sprintf("size=%d/%s/%s", prodSize, involvement(begin, end, indexed, head), v.kind)}
+				if !col.wouldKeep(pv, len(c.addrs)+2*len(c.tops)) {
+					if time.Now().After(deadline) {
+						capped.Store(true)
+						return
+					}
 					continue
 				}
 				for r := 0; r < 3; r++ {
@@ -1570,7 +1650,7 @@ func partProd(deadline time.Time, shard, nshards int, col *collector) {
 					d["want"] = append(v.want[:40:40], "...")
 				}
 				col.violate(ev.Violation{Scenario: "log-query", Oracle: v.oracle,
-					CaseID: fmt.Sprintf("size=%d/sections=%d/%s/%s", prodSize, st.k, rc, v.kind), Detail: d}, len(c.addrs)+2*len(c.tops))
+					CaseID: fmt.Sprintf("size=%d/%s/%s", prodSize, involvement(begin, end, indexed, head), v.kind), Detail: d}, len(c.addrs)+2*len(c.tops))
 			}
 		}
 		flights.Delete(j)
@@ -1608,6 +1688,133 @@ func ints(v interface{}) []int {
 	return out
 }
 
+// oneQuery rebuilds the chain, the database and the backend of a small-chain query and runs it.
+func oneQuery(d map[string]interface{}) (verdict, *state, criteria) {
+	c := mkCriteria(num(d, "addr_sel"), ints(d["topic_sel"]))
+	var ch *chain
+	var st *state
+	if d["part"] == "prod-query" {
+		ch = buildProdChain()
+		states := prodStates(ch, newCollector())
+		st = states[0]
+		if num(d, "sections_indexed") != 1 {
+			st = states[1]
+		}
+	} else {
+		ch = buildChain(num(d, "L"), num(d, "rot"), num(d, "layout"))
+		size, k := num(d, "size"), num(d, "sections_indexed")
+		db, _ := ch.writeChain(size, k)
+		st = &state{ch: ch, size: size, k: k, b: newBackend(db, uint64(size), uint64(k))}
+	}
+	m := make([][]int, ch.L)
+	for n := 0; n < ch.L; n++ {
+		for i := range ch.model[n] {
+			if refMatch(&c, &ch.model[n][i]) {
+				m[n] = append(m[n], i)
+			}
+		}
+	}
+	return evalQuery(st, &c, m, num(d, "begin"), num(d, "end")), st, c
+}
+
+// panicLine extracts the panic message of a crashed process.
+func panicLine(output string) string {
+	for _, l := range strings.Split(output, "\n") {
+		if strings.HasPrefix(l, "panic: ") || strings.HasPrefix(l, "fatal error: ") {
+			return l
+		}
+	}
+	return "process died"
+}
+
+func panicClass(line string) string {
+	for _, k := range []string{"index out of range", "slice bounds out of range", "nil pointer", "close of closed channel", "send on closed channel", "negative WaitGroup", "all goroutines are asleep", "concurrent map", "makeslice"} {
+		if strings.Contains(line, k) {
+			return strings.ReplaceAll(k, " ", "-")
+		}
+	}
+	return "other"
+}
+
+// runOne runs one query in a process of its own; it reports whether that process died and its output.
+func runOne(d map[string]interface{}) (died bool, output string, res *ev.WorkerResult) {
+	b, _ := json.Marshal(d)
+	out := run.RunWorkers(1, []string{"VERIF_C16_ONE=" + string(b), "VERIF_JOBS=2"}, func(_ int, o string) { died, output = true, o })
+	if len(out) == 1 {
+		res = out[0]
+	}
+	return
+}
+
+// replayCrash re-runs a query that killed its process.
+func replayCrash(d map[string]interface{}) {
+	died, output, _ := runOne(d)
+	fmt.Printf("NOTE replay in a process of its own: died=%v %s\n", died, panicLine(output))
+	if died {
+		run.Violate(ev.Violation{Scenario: "log-query", Oracle: "no-crash", CaseID: crashCaseID(d, output), Detail: d})
+	}
+}
+
+func crashCaseID(d map[string]interface{}, output string) string {
+	L, size, k := num(d, "L"), num(d, "size"), num(d, "sections_indexed")
+	return fmt.Sprintf("size=%d/%s/%s", size, involvement(num(d, "begin"), num(d, "end"), k*size, L-1), panicClass(panicLine(output)))
+}
+
+// handleCrash: shard died. Run it again with a query trace, then run the last traced query alone.
+func handleCrash(shard, nshards int, output string, baseEnv []string) {
+	if strings.Contains(output, "HARNESS-ERROR") {
+		ev.Broken("worker %d: %s", shard, headStr(output, 2000))
+	}
+	path := filepath.Join(os.Getenv("VERIF_SCRATCH"), fmt.Sprintf("c16-trace-%d.jsonl", shard))
+	defer os.Remove(path)
+	died := false
+	var out2 string
+	budget := 70 * time.Second
+	if run.Thorough() {
+		budget = 11 * time.Minute
+	}
+	env := append(append([]string{}, baseEnv...), fmt.Sprintf("VERIF_SHARD=%d/%d", shard, nshards), "VERIF_C16_TRACE="+path, "VERIF_JOBS=1",
+		fmt.Sprintf("VERIF_C16_DEADLINE=%d", time.Now().Add(budget).UnixNano()))
+	run.RunWorkers(1, env, func(_ int, o string) { died, out2 = true, o })
+	if !died {
+		ev.Broken("worker %d died once (%s) and not when it was run again", shard, panicLine(output))
+	}
+	b, _ := os.ReadFile(path)
+	lines := strings.Split(strings.TrimSpace(string(b)), "\n")
+	var d map[string]interface{}
+	if len(lines) == 0 || json.Unmarshal([]byte(lines[len(lines)-1]), &d) != nil {
+		ev.Broken("worker %d died before its first query: %s", shard, headStr(out2, 2000))
+	}
+	alone, out3, _ := runOne(d)
+	d["panic"] = panicLine(out2)
+	d["stack"] = headStr(stackHead(out2), 1500)
+	if alone {
+		d["reproduces"] = "the query alone, in a fresh process"
+		run.Violate(ev.Violation{Scenario: "log-query", Oracle: "no-crash", CaseID: crashCaseID(d, out3), Detail: d})
+		return
+	}
+	d["reproduces"] = "only after the queries that precede it in the shard (deterministically, twice)"
+	run.Violate(ev.Violation{Scenario: "log-query", Oracle: "no-crash-in-sequence", CaseID: crashCaseID(d, out2), Detail: d})
+}
+
+func stackHead(output string) string {
+	if i := strings.Index(output, "panic: "); i >= 0 {
+		return output[i:]
+	}
+	if i := strings.Index(output, "fatal error: "); i >= 0 {
+		return output[i:]
+	}
+	return output
+}
+
+// headStr keeps the first n bytes.
+func headStr(s string, n int) string {
+	if len(s) > n {
+		return s[:n]
+	}
+	return s
+}
+
 func replay(d *ev.ReplayDoc) {
 	switch d.Detail["part"] {
 	case "receipt":
@@ -1635,9 +1842,13 @@ func replay(d *ev.ReplayDoc) {
 		reportBloomFails("bloom-header", checkBlockBloom(rs), map[string]interface{}{"part": "block", "receipts": d.Detail["receipts"]},
 			func() []bloomFail { return checkBlockBloom(rs) })
 	case "query", "index":
-		ch := buildChain(num(d.Detail, "L"), num(d.Detail, "rot"))
+		if d.Oracle == "no-crash" {
+			replayCrash(d.Detail)
+			return
+		}
+		ch := buildChain(num(d.Detail, "L"), num(d.Detail, "rot"), num(d.Detail, "layout"))
 		size, k := num(d.Detail, "size"), num(d.Detail, "sections_indexed")
-		db, problems := ch.writeChain(size, k)
+		_, problems := ch.writeChain(size, k)
 		for _, p := range problems {
 			run.Violate(ev.Violation{Scenario: "bloombits-index", Oracle: "generator-no-false-negative", CaseID: fmt.Sprintf("size=%d", size),
 				Detail: map[string]interface{}{"problem": p}})
@@ -1645,23 +1856,17 @@ func replay(d *ev.ReplayDoc) {
 		if d.Detail["part"] == "index" {
 			return
 		}
-		st := &state{ch: ch, size: size, k: k, b: newBackend(db, uint64(size), uint64(k))}
-		c := mkCriteria(num(d.Detail, "addr_sel"), ints(d.Detail["topic_sel"]))
-		m := make([][]int, ch.L)
-		for n := 0; n < ch.L; n++ {
-			for i := range ch.model[n] {
-				if refMatch(&c, &ch.model[n][i]) {
-					m[n] = append(m[n], i)
-				}
-			}
-		}
+		v, st, c := oneQuery(d.Detail)
 		begin, end := num(d.Detail, "begin"), num(d.Detail, "end")
-		v := evalQuery(st, &c, m, begin, end)
 		fmt.Printf("NOTE replay %s begin=%d end=%d got=%v want=%v err=%q\n", c.String(), begin, end, v.got, v.want, v.errText)
 		if v.bad {
 			run.Violate(ev.Violation{Scenario: d.Scenario, Oracle: v.oracle, CaseID: d.CaseID, Detail: st.detail(&c, begin, end, v)})
 		}
 	case "prod-query", "prod-index":
+		if d.Oracle == "no-crash" {
+			replayCrash(d.Detail)
+			return
+		}
 		col := newCollector()
 		ch := buildProdChain()
 		states := prodStates(ch, col)
@@ -1705,6 +1910,25 @@ func worker(shard, n int) {
 		deadline = time.Unix(0, ns)
 	}
 	col := newCollector()
+	if one := os.Getenv("VERIF_C16_ONE"); one != "" {
+		var d map[string]interface{}
+		if err := json.Unmarshal([]byte(one), &d); err != nil {
+			ev.Broken("bad VERIF_C16_ONE: %v", err)
+		}
+		stop := make(chan struct{})
+		go watchdog(stop)
+		if v, st, c := oneQuery(d); v.bad {
+			col.violate(ev.Violation{Scenario: "log-query", Oracle: v.oracle, CaseID: "single", Detail: st.detail(&c, num(d, "begin"), num(d, "end"), v)}, 0)
+		}
+		ev.WorkerDone(col.done())
+	}
+	if p := os.Getenv("VERIF_C16_TRACE"); p != "" {
+		f, err := os.Create(p)
+		if err != nil {
+			ev.Broken("trace file: %v", err)
+		}
+		traceFile = f
+	}
 	part2(tierCfgs(os.Getenv("VERIF_TIER")), deadline, shard, n, col)
 	if os.Getenv("VERIF_TIER") == "thorough" {
 		partProd(deadline, shard, n, col)
@@ -1734,19 +1958,40 @@ func TestCheck(t *testing.T) {
 	cfgs := tierCfgs(run.Tier)
 	var desc []string
 	for _, c := range cfgs {
-		desc = append(desc, fmt.Sprintf("L=%d rot=%d sizes=%v gomaxprocs=%d topic-positions<=%d criteria=%d", c.L, c.rot, c.sizes, c.gmp, c.maxPos, len(allCriteria(c.maxPos))))
+		desc = append(desc, fmt.Sprintf("L=%d rot=%d layout=%d sizes=%v gomaxprocs=%d topic-positions<=%d criteria=%d", c.L, c.rot, c.layout, c.sizes, c.gmp, c.maxPos, len(allCriteria(c.maxPos))))
 	}
 	run.Set("chains", desc)
 	deadline := run.Deadline(70*time.Second, 11*time.Minute)
+	if v, err := strconv.Atoi(os.Getenv("VERIF_C16_DEADLINE_S")); err == nil { // developer aid on a busy machine
+		deadline = time.Now().Add(time.Duration(v) * time.Second)
+	}
 	nw := ev.Jobs() / 2
 	if nw < 1 {
 		nw = 1
 	}
-	results := run.RunWorkers(nw, []string{"VERIF_JOBS=2", fmt.Sprintf("VERIF_C16_DEADLINE=%d", deadline.UnixNano())}, nil)
-	for _, r := range results {
-		if r == nil {
-			ev.Broken("a worker returned nothing")
+	baseEnv := []string{"VERIF_JOBS=2", fmt.Sprintf("VERIF_C16_DEADLINE=%d", deadline.UnixNano())}
+	var cmu sync.Mutex
+	crashed := map[int]string{}
+	run.RunWorkers(nw, baseEnv, func(shard int, output string) {
+		cmu.Lock()
+		crashed[shard] = output
+		cmu.Unlock()
+	})
+	// a worker that died: the code under test crashed the process (a panic on one of the matcher's
+	// goroutines cannot be recovered by the caller). Find the query, report it.
+	var shards []int
+	for s := range crashed {
+		shards = append(shards, s)
+	}
+	sort.Ints(shards)
+	if len(shards) > 0 {
+		run.Cap(fmt.Sprintf("%d of %d workers died, their remaining jobs were not run", len(shards), nw))
+	}
+	for i, s := range shards {
+		if i >= 2 {
+			break // the same defect, most likely; two traces are enough
 		}
+		handleCrash(s, nw, crashed[s], baseEnv)
 	}
 	run.Finish()
 }
